@@ -23,7 +23,8 @@
 (* Configurations: MC_IterFit_quick (n=3, all orders, residuals {-4,0,6}, limits beyond / at),  *)
 (* MC_IterFit_thorough (n=3, all orders, 5 residual values, 3 limit pairs), MC_IterFit_chains_  *)
 (* thorough (n=4,5, every Beyond function, up to 5 fits), MC_IterFit_pair_{quick,thorough}      *)
-(* (n<=4 / n<=5, second run in every order).                                                    *)
+(* (n<=4 / n<=5, second run in every order; one fit of a run may drop breakpoints).             *)
+(* NBk = 2 everywhere.                                                                          *)
 EXTENDS IterFit, TLC
 CONSTANTS Mode,       \* "single" or "pair"
           Ns,         \* set of problem sizes
